@@ -48,10 +48,12 @@ def observe(g, start, msg, mode, bound):
     """One case: encode on the generated graph, then ask the real filter about every window and the whole strand."""
     flt, gen_out, verts, acc = build_graph(g["src"], g["cfg"], g["mask"], g["k"], g["t"])
     c = {"start": start, "msg": msg, "mode": mode, "gen_out": gen_out, "verts": verts, "enc_out": "not-run", "strand": [], "ticks": 0,
-         "fv_windows": [], "fv_strand": True, "fv_full": True}
+         "fv_windows": [], "fv_strand": True, "fv_full": True, "ilive": []}
     if acc is None:
         return c
-    e = cf.run_encode(acc, start, msg, mode, 0, None, budget=bound + 2)
+    c["ilive"] = impl.live_of(acc)
+    nv = sum(1 for L in c["ilive"] if L)
+    e = cf.run_encode(acc, start, msg, mode, 0, None, budget=len(msg) * nv + 2)
     c["enc_out"], c["strand"], c["ticks"] = e["enc_out"], e["strand"], e["ticks"]
     if e["enc_out"] == "ok":
         k = g["k"]
